@@ -67,6 +67,8 @@ def run(ctx, rep):
     n = ivcases.run_family_clauses(ctx, rep, 'D4.values', 'percent_point', cl[:1], ('Clayton',))
     n += ivcases.run_family_clauses(ctx, rep, 'D4.values', 'percent_point', cl[1:], ('Gumbel', 'Independence'))
     n += inverse_composition(ctx, rep)
+    rep.rule('D6.monotone', 'a closed-form percent_point is non-decreasing in y (exact theta, narrow cells, refutation only)')
+    ivcases.monotone_refutation(ctx, rep, 'D6.monotone', 'percent_point', 'non-decreasing in y', families=('Clayton',))
     rep.floor('D4.values', 'family x clause evaluations', n, 4)
     fn = prog.method(BIV, 'percent_point', inherited=False)
     yp, vp = fn.params[1], fn.params[2]
